@@ -103,6 +103,17 @@ func (x *Exec) evalModSet(sp *FuncSpec, env *SpecEnv) *ModSet {
 				panic(fmt.Errorf("modifies %s: no field %s", ml.Src, sel.Name))
 			}
 			x.modAddField(ms, T2, fi, addr2, ml.Src)
+		case "ghostglobal":
+			name := strings.TrimPrefix(ml.E.(EIdent).Name, "$")
+			gt, ok := x.W.Specs.GhostGlobals[name]
+			if !ok {
+				panic(fmt.Errorf("modifies %s: unknown ghost global", ml.Src))
+			}
+			T := env.resolveParamType(gt)
+			ms.Globals["G!ghost."+name] = true
+			for _, l := range x.Sh.Leaves(T) {
+				ms.keys[compKeyGlobal("ghost."+name, l.Suffix)] = ArrSort(SInt, l.Sort)
+			}
 		case "eachfield":
 			base := env.eval(ml.E)
 			sl, ok := base.V.(VSlice)
